@@ -1,8 +1,8 @@
 SPECIFICATION Spec
 CONSTANTS MaxLen = 3
   Pool <- Pool3
-  Starts <- StartsAll
-  Xs = {1, 2}
+  Starts <- StartsB
+  Xs = {2}
   Nested = TRUE
   CopyVarContext = TRUE
   ExtendByCompose = TRUE
